@@ -540,6 +540,20 @@ def nested_net(e):
     return total
 
 
+def paired_props(depth, exp):
+    """whom an unbalanced stack concerns: the keyword-version stack decides which words are reserved (C13); the directive
+    stack decides how white space is lexed, hence what the pp grammar and the conditional directives see (C04, C06);
+    either one left unbalanced is state that outlives the production (C07)"""
+    props = ['C07']
+    if depth.get('CURRENT_VERSION') != exp.get('CURRENT_VERSION'):
+        props.append('C13')
+    if depth.get('IN_DIRECTIVE') != exp.get('IN_DIRECTIVE'):
+        props += ['C04', 'C06', 'C12']
+    if len(props) == 1:
+        props += ['C13', 'C04', 'C06', 'C12']      # unbalanced only on an exit through `?`: which stack is in the message
+    return props
+
+
 def paired_run(fns):
     """on every path through a body (each `?` is an exit) pushes and pops of the same stack balance"""
     failures = []
@@ -578,9 +592,9 @@ def paired_run(fns):
         if f.name in NET:
             exp[NET[f.name][0]] = NET[f.name][1]
         if msg:
-            failures.append(fail(f.name, 'paired.%s' % f.name, 'begin/end not paired: ' + msg, ['C13', 'C07', 'C12', 'C04', 'C06'], f))
+            failures.append(fail(f.name, 'paired.%s' % f.name, 'begin/end not paired: ' + msg, paired_props(depth, exp), f))
         elif depth != exp:
-            failures.append(fail(f.name, 'paired.%s' % f.name, 'begin/end not balanced at the end: %s (expected %s)' % (depth, exp), ['C13', 'C07', 'C12', 'C04', 'C06'], f))
+            failures.append(fail(f.name, 'paired.%s' % f.name, 'begin/end not balanced at the end: %s (expected %s)' % (depth, exp), paired_props(depth, exp), f))
     return dict(failures=failures, checked=checked)
 
 
